@@ -133,6 +133,9 @@ enum ActKind {
 #[derive(Clone, Debug, PartialEq, Eq, Hash, Serialize, Deserialize)]
 struct Act {
     sleep: Option<u64>,
+    /// main spins `N slow` before the action (delay in instructions, independent of the clock)
+    #[serde(default)]
+    spin: u32,
     kind: ActKind,
 }
 
@@ -148,6 +151,14 @@ struct Scenario {
     /// process must keep its result whatever happens to processes it once awaited)
     #[serde(default)]
     after_go: Option<usize>,
+    /// false: p returns the constant 7 instead of `[r, d…]`, so that every received value is dropped
+    /// and a leaked reference shows up in the executor's refcount check (debug assertion) at completion
+    #[serde(default = "yes")]
+    report: bool,
+}
+
+fn yes() -> bool {
+    true
 }
 
 #[derive(Clone, Debug, Serialize, Deserialize)]
@@ -310,14 +321,21 @@ impl Scenario {
         for i in 0..n {
             body.push_str(&format!(", ! [#'m, 0] =d{i}"));
         }
-        body.push_str(", [r");
-        for i in 0..n {
-            body.push_str(&format!(", d{i}"));
+        if self.report {
+            body.push_str(", [r");
+            for i in 0..n {
+                body.push_str(&format!(", d{i}"));
+            }
+            body.push(']');
+        } else {
+            body.push_str(", 7");
         }
-        body.push(']');
         lines.push(format!("p = @{{ {body} }}"));
         for a in &self.script {
-            let pre = a.sleep.map(|ms| format!("! [{ms}] ")).unwrap_or_default();
+            let mut pre = a.sleep.map(|ms| format!("! [{ms}] ")).unwrap_or_default();
+            if a.spin > 0 {
+                pre.push_str(&format!("{} slow ", a.spin));
+            }
             match &a.kind {
                 ActKind::Send(m) => lines.push(format!("{pre}{} p", m.qv())),
                 ActKind::Go(i) => lines.push(format!("{pre}Go q{i}")),
@@ -450,17 +468,20 @@ fn gen_scenario(r: &mut Rng) -> Scenario {
     let n_msgs = r.usize(5);
     let mut script = vec![];
     for _ in 0..n_msgs {
-        script.push(Act { sleep: None, kind: ActKind::Send(gen_msg(r)) });
+        script.push(Act { sleep: None, spin: 0, kind: ActKind::Send(gen_msg(r)) });
     }
     for (i, h) in helpers.iter().enumerate() {
         if h.trigger == Trigger::Go && r.chance(4, 5) {
-            script.push(Act { sleep: None, kind: ActKind::Go(i) });
+            script.push(Act { sleep: None, spin: 0, kind: ActKind::Go(i) });
         }
     }
     r.shuffle(&mut script);
     for a in script.iter_mut() {
         if r.chance(1, 3) {
             a.sleep = Some(*r.pick(&[1u64, 2, 3, 5, 8, 13, 30]));
+        }
+        if r.chance(1, 3) {
+            a.spin = *r.pick(&[3u32, 10, 30, 100]);
         }
     }
     let final_sleep = if r.chance(1, 2) { Some(*r.pick(&[1u64, 4, 10, 45, 70])) } else { None };
@@ -475,7 +496,8 @@ fn gen_scenario(r: &mut Rng) -> Scenario {
             after_go = Some(i);
         }
     }
-    Scenario { sources, helpers, script, final_sleep, p_delay, after_go }
+    let report = !r.chance(1, 6);
+    Scenario { sources, helpers, script, final_sleep, p_delay, after_go, report }
 }
 
 // ---------------------------------------------------------------------------------------------
@@ -577,6 +599,12 @@ fn real_state(sim: &Sim, w: usize, pid: usize) -> Option<String> {
     Some(format!("mb=({}) aw=({}) af=({}) sel={} parked={} res={}", mb.join(" "), aw.join(" "), af.join(" "), sel, parked, res))
 }
 
+/// receive index of the held message in a model state string
+fn recv_idx(state: &str) -> Option<usize> {
+    let i = state.find(" recv (")?;
+    state[i + 7..].split(' ').next()?.parse().ok()
+}
+
 fn strip_queued(s: &str) -> String {
     s.replace(" queued=0", "").replace(" queued=1", "")
 }
@@ -607,6 +635,10 @@ struct Outcome {
     events: Vec<String>,
     selects: u64,
     select_steps_straddled: u64,
+    /// a pending verdict was abandoned because a higher-priority filter source took over (F7's situation)
+    abandoned: u64,
+    /// messages / results that arrived while a receive function was running
+    arrivals_during_filter: u64,
     rejected: Option<String>,
     steps: usize,
     end_time: u64,
@@ -744,6 +776,9 @@ impl<'a> Runner<'a> {
                 }
                 Command::DeliverMessage { target, message, heap } if *target == self.pp => {
                     let v = wire_val(&self.sim, message, heap);
+                    if recv_idx(&self.model.ask("(state)")).is_some() {
+                        self.out.arrivals_during_filter += 1;
+                    }
                     self.delivered.push(v.clone());
                     let a = self.ask(format!("(msg {v})"));
                     evlog.push(format!("msg {v}"));
@@ -795,7 +830,14 @@ impl<'a> Runner<'a> {
                         self.start = Some(now);
                     }
                 }
+                let before = recv_idx(&self.model.ask("(state)"));
                 let a = self.ask(format!("(select {site} {now})"));
+                if a.starts_with("called")
+                    && let (Some(b), Some(n)) = (before, recv_idx(&a))
+                    && n < b
+                {
+                    self.out.abandoned += 1;
+                }
                 if a.starts_with("failed") {
                     cause = "propagated".into();
                 }
@@ -879,6 +921,14 @@ impl<'a> Runner<'a> {
             if let Some(real) = real_state(&self.sim, self.pw, self.pp) {
                 if m != real {
                     self.out.mismatch = Some((idx, evlog.join("; "), m, real));
+                }
+            }
+            // next_timeout_ms: p is the only process with timeouts on its worker unless it shares it with main
+            if self.pw != 0 && self.out.mismatch.is_none() {
+                let real = self.sim.workers[self.pw].next_timeout_ms().map(|t| t.to_string()).unwrap_or_else(|| "none".into());
+                let m = self.model.ask("(next-timeout)");
+                if m != real {
+                    self.out.mismatch = Some((idx, evlog.join("; "), format!("next-timeout {m}"), format!("next-timeout {real}")));
                 }
             }
         }
@@ -1269,6 +1319,7 @@ fn main() {
         for e in &o.events {
             println!("  {e}");
         }
+        println!("selects={} abandoned={} arrivals_during_filter={} comparisons={}", o.selects, o.abandoned, o.arrivals_during_filter, o.comparisons);
         println!("main={} p={:?} completion={:?} death={:?} mismatch={:?} faults={:?}", o.main, o.p_fields, o.completion, o.death, o.mismatch, o.faults);
         let vs = judge(&case, &o, &mut ev);
         for v in &vs {
@@ -1313,7 +1364,14 @@ fn main() {
     ev.set_extra("corpus_cases", json!(n_corpus));
     ev.set_extra("generated_scenarios", json!(n_scen));
 
+    let started = std::time::Instant::now();
+    let cap = std::time::Duration::from_secs(opts.tier.pick(110, 1500));
     for (ci, (name, case)) in cases.iter().enumerate() {
+        if started.elapsed() > cap {
+            // wall-clock cap (a change that makes runs crawl must still end with a verdict)
+            ev.hit("not-run:wall-clock-cap");
+            continue;
+        }
         let o = run_case(case, &mut model, false);
         let nontrivial = o.rejected.is_none() && o.selects >= 2;
         ev.case(&(serde_json::to_string(case).unwrap()), nontrivial);
@@ -1332,6 +1390,8 @@ fn main() {
         }
         ev.add("select-executions", o.selects);
         ev.add("steps-with-several-select-executions", o.select_steps_straddled);
+        ev.add("pending-verdict-abandoned-for-higher-priority-source", o.abandoned);
+        ev.add("messages-arrived-while-a-filter-ran", o.arrivals_during_filter);
         if let Some(c) = &o.completion {
             let via = if c.spec.starts_with("yields nil") {
                 "completion:timeout"
